@@ -2483,6 +2483,7 @@ int _vnaproperty_yaml_export(vnaproperty_yaml_t *vymlp,
 		_vnaproperty_yaml_error(vymlp, VNAERR_SYSTEM,
 			"yaml_document_add_mapping: %s: %s",
 			vymlp->vyml_filename, strerror(errno));
+		free((void *)keys);
 		return -1;
 	    }
 	    for (const char **cpp = keys; *cpp != NULL; ++cpp) {
